@@ -1,13 +1,75 @@
 /-
-Oracle ops for the `ptr` family.  Owned by the slice that models it; see AGENT_GUIDE.md.
+Oracle ops for the `ptr` family (C16): jsontext.Pointer methods and appendStackPointer.
+
+  ptr valid h | contains h1 h2 | parent h | last h | append h tok | tokens h | esc h | unesc h
+  ptr sp w t1 t2 …    model of appendStackPointer(nil, w) after the token history   (w ∈ -1 0 1)
+  ptr spec w t1 t2 …  render (pointerOf w history)                                   (the declarative side)
+      tokens: `{` `}` `[` `]` `l` (literal/number) `s<hex>` (string; `s-` = empty)
+Answers: hex byte strings (`-` = empty), `0`/`1`, token lists as `n tok1 … tokn`, `E` = rejected history / panic.
 -/
 import JsonV.Oracle.Util
+import JsonV.Model.Pointer
+import JsonV.Spec.PointerSpec
 
 namespace JsonV.Oracle.Ptr
-open JsonV JsonV.Oracle
+open JsonV JsonV.Oracle JsonV.Model.Pointer
+
+def parseTok (s : String) : Option Tok :=
+  match s with
+  | "{" => some .beginObj
+  | "}" => some .endObj
+  | "[" => some .beginArr
+  | "]" => some .endArr
+  | "l" => some .scalar
+  | _ => if s.startsWith "s" then (bytesOfHex (s.drop 1).toString).map .str else none
+
+def parseHist (args : List String) : Option (List Tok) := args.mapM parseTok
+
+def parseWhere (s : String) : Option Int :=
+  match s with
+  | "-1" => some (-1)
+  | "0" => some 0
+  | "1" => some 1
+  | _ => none
 
 def handle (op : String) (args : List String) : String :=
   match op, args with
-  | _, _ => "ERR unimplemented"
+  | "valid", [h] => match bytesOfHex h with
+    | some p => boolStr (isValid p)
+    | none => badArgs
+  | "contains", [h1, h2] => match bytesOfHex h1, bytesOfHex h2 with
+    | some p, some q => boolStr (contains p q)
+    | _, _ => badArgs
+  | "parent", [h] => match bytesOfHex h with
+    | some p => hexOfBytes (parent p)
+    | none => badArgs
+  | "last", [h] => match bytesOfHex h with
+    | some p => hexOfBytes (lastToken p)
+    | none => badArgs
+  | "append", [h, t] => match bytesOfHex h, bytesOfHex t with
+    | some p, some t => hexOfBytes (appendToken p t)
+    | _, _ => badArgs
+  | "tokens", [h] => match bytesOfHex h with
+    | some p => let ts := tokens p; " ".intercalate (toString ts.length :: ts.map hexOfBytes)
+    | none => badArgs
+  | "esc", [h] => match bytesOfHex h with
+    | some p => hexOfBytes (escape p)
+    | none => badArgs
+  | "unesc", [h] => match bytesOfHex h with
+    | some p => hexOfBytes (unescape p)
+    | none => badArgs
+  | "sp", w :: hist => match parseWhere w, parseHist hist with
+    | some w, some hist => match AState.init.run hist with
+      | some s => match appendStackPointer s [] w with
+        | some b => hexOfBytes b
+        | none => "E"
+      | none => "E"
+    | _, _ => badArgs
+  | "spec", w :: hist => match parseWhere w, parseHist hist with
+    | some w, some hist => match Spec.Pointer.pointerOf w hist with
+      | some p => hexOfBytes (Spec.Pointer.renderPath p)
+      | none => "E"
+    | _, _ => badArgs
+  | _, _ => badArgs
 
 end JsonV.Oracle.Ptr
